@@ -16,7 +16,7 @@ import (
 // pointer escaping, non-ASCII, spaces and HTML characters; numbers are
 // literals chosen to expose any conversion; strings need JSON escaping.
 var (
-	KeyPool   = []string{"a", "b", "c", "d", "0", "1", "-1", "x/y", "m~n", "~1", "é", "k k", "-", "<&>", "a/b~c", "e f", "%d", "b\\s", "ab", "k\\"}
+	KeyPool   = []string{"a", "b", "c", "d", "0", "1", "-1", "x/y", "m~n", "~1", "é", "k k", "-", "<&>", "a/b~c", "e f", "%d", "b\\s", "ab", "k\\", "\ufffdz"}
 	PlainKeys = []string{"a", "b", "c", "d", "e", "f", "k0", "k1"}
 	NumPool   = []string{"0", "1", "-1", "2", "10", "1.0", "1.5", "-0", "1e2", "1E400", "12345678901234567890123", "0.1", "-2.50", "1e-7", "100000000000000000000", "0.30000000000000004", "2E+2", "9007199254740992", "9007199254740993", "1700000000", "1700000001"}
 	StrPool   = []string{"", "a", "b", "x y", "é", "<&>", "q\"uote", "back\\slash", "line\nfeed", "😀", " ", "tab\there", "</script>", "a&b", "u v w", "\u0001ctl", "/", "~", "25% off %s", "%!v(x)", "cr\rlf", "C:\\", "\U0001F3FF", "\U00010000\U0010FFFF"}
@@ -47,6 +47,9 @@ func (c Cfg) Scalar() *rapid.Generator[*ref.V] {
 		case 1:
 			return ref.Bool(rapid.Bool().Draw(t, "b"))
 		case 2, 3:
+			if OneIn(t, 200, "longnum") {
+				return ref.Num(rapid.SampledFrom(LongNums).Draw(t, "ln"))
+			}
 			return ref.Num(rapid.SampledFrom(c.Nums).Draw(t, "n"))
 		default:
 			if OneIn(t, 80, "longstr") {
@@ -62,6 +65,13 @@ func (c Cfg) Scalar() *rapid.Generator[*ref.V] {
 var LongStrs = []string{
 	strings.Repeat("ab", 300), strings.Repeat("x", 511), strings.Repeat("x", 512), strings.Repeat("x", 513),
 	strings.Repeat("é", 300), strings.Repeat("line\n<tag>&\"q\"\\", 120), strings.Repeat("\u2028 ", 200), strings.Repeat("😀", 1100),
+}
+
+// LongNums: number literals far longer than any machine number - a limit on
+// the length of a literal, or a conversion on the way, shows on them.
+var LongNums = []string{
+	"1" + strings.Repeat("0", 400), "-" + strings.Repeat("9", 1100), "0." + strings.Repeat("0", 600) + "1",
+	"1." + strings.Repeat("3", 513) + "e-400", "1e" + strings.Repeat("0", 40) + "5", "-0." + strings.Repeat("12", 2600) + "E+3",
 }
 
 // Value generates any JSON value of nesting at most depth.
@@ -729,4 +739,27 @@ func Bulk(t *rapid.T) (doc *ref.V, ops []ref.Op, merge *ref.V) {
 	}
 	mw.Set("added", ref.Bool(true))
 	return doc, ops, merge
+}
+
+// ManyOps draws a small document and a patch of several hundred to several
+// thousand operations, every one applicable (adds, copies, tests, removes in a
+// fixed cycle; one object keeps growing). A cap on the number of operations,
+// or per-operation state that is not reset, shows only on such patches.
+func ManyOps(t *rapid.T) (*ref.V, []ref.Op) {
+	n := rapid.SampledFrom([]int{300, 1100, 4200}).Draw(t, "manyn")
+	doc := ref.ObjOf("a", ref.Arr(), "o", ref.Obj(), "keep", ref.Num("1.0"))
+	var ops []ref.Op
+	for i := 0; len(ops) < n; i++ {
+		v := ref.Num(fmt.Sprint(i))
+		ops = append(ops,
+			ref.Op{Op: "add", Path: "/a/-", Value: v},
+			ref.Op{Op: "add", Path: fmt.Sprintf("/o/k%d", i), Value: ref.Str("s")},
+			ref.Op{Op: "copy", From: "/a/0", Path: "/o/c"},
+			ref.Op{Op: "test", Path: "/o/c", Value: v.Clone()},
+			ref.Op{Op: "remove", Path: "/a/0"})
+		if i%7 == 3 {
+			ops = append(ops, ref.Op{Op: "move", From: fmt.Sprintf("/o/k%d", i-1), Path: "/last"})
+		}
+	}
+	return doc, ops
 }
